@@ -1,5 +1,6 @@
 import RoaringModel.Lemmas.BitmapLen
 import RoaringModel.Props.C02
+import RoaringModel.Lemmas.Mirror32
 import RoaringModel.Lemmas.MirrorLemmas
 /-!
 # C08 — relations and cardinality-only operations match the real sets
@@ -171,5 +172,23 @@ theorem C08_interLen_visitor_exact (l r : List Nat) (hl : Sorted l) (hr : Sorted
 
 example : Sorted [1, 5, 65535] ∧ Sorted [5, 6, 65535] := by simp [Sorted]
 example : Arr.interLenVisit [1, 5, 65535] [5, 6, 65535] = 2 := by decide +kernel
+/-! ### The relations as the driver executes them (`Mirror32.lean`): `is_subset` is the `for` loop over `Pairs`
+    with its two early `return false` (cmp.rs:58-69), `is_disjoint` is `filter_map(zip)` followed by `all`
+    (cmp.rs:30-32).  Both are unconditionally equal to the definitions above (`isSubset_mirror_eq`,
+    `isDisjoint_mirror_eq`). -/
+theorem C08_is_subset_mirror (a b : Bitmap) (ha : a.WF) (hb : b.WF) :
+    isSubsetMirror a b = Spec.isSubset (elems a) (elems b) ∧
+    (isSubsetMirror a b = true ↔ ∀ y, y ∈ elems a → y ∈ elems b) := by
+  rw [isSubset_mirror_eq]; exact C08_is_subset a b ha hb
+theorem C08_is_superset_mirror (a b : Bitmap) (ha : a.WF) (hb : b.WF) :
+    isSupersetMirror a b = Spec.isSuperset (elems a) (elems b) ∧
+    (isSupersetMirror a b = true ↔ ∀ y, y ∈ elems b → y ∈ elems a) := by
+  rw [isSuperset_mirror_eq]; exact C08_is_superset a b ha hb
+theorem C08_is_disjoint_mirror (a b : Bitmap) (ha : a.WF) (hb : b.WF) :
+    isDisjointMirror a b = Spec.isDisjoint (elems a) (elems b) ∧
+    (isDisjointMirror a b = true ↔ ∀ y, y ∈ elems a → ¬ y ∈ elems b) := by
+  rw [isDisjoint_mirror_eq]; exact C08_is_disjoint a b ha hb
+example : isSubsetMirror exB exA = false ∧ isDisjointMirror exA exB = false ∧ isSubsetMirror [] exA = true := by
+  decide +kernel
 
 end Roaring.C08
